@@ -382,6 +382,20 @@ func (pc *evPathChecker) walk(x *sx, stack []evPathEntry) {
 		if len(args) > 0 {
 			pc.seq(args[1:], "with-mutex-lock", stack)
 		}
+	case "recover":
+		if len(args) >= 2 {
+			sub(args[1], "recover.on-recover")
+			pc.seq(args[2:], "recover", stack)
+		}
+	case "with-open-file":
+		if len(args) > 0 {
+			if args[0].k == 'l' {
+				for _, a := range args[0].l[1:] {
+					sub(a, "with-open-file.path")
+				}
+			}
+			pc.seq(args[1:], "with-open-file", stack)
+		}
 	default:
 		cell := "call.arg"
 		if pc.userFns[head.s] {
